@@ -150,6 +150,8 @@ def raw_h5(path):
     import tables
     out = {}
     with tables.open_file(path, "r") as fh:
+        out["conventions"] = str(getattr(fh.root._v_attrs, "conventions", ""))
+        out["convention_version"] = str(getattr(fh.root._v_attrs, "conventionVersion", ""))
         for name in ("coordinates", "time", "cell_lengths", "cell_angles"):
             if hasattr(fh.root, name):
                 node = getattr(fh.root, name)
@@ -165,6 +167,12 @@ def raw_nc(path):
         ds.set_auto_mask(False)
         ds.set_auto_scale(False)
         out["conventions"] = str(getattr(ds, "Conventions", ""))
+        out["convention_version"] = str(getattr(ds, "ConventionVersion", ""))
+        out["dims"] = {k: len(v) for k, v in ds.dimensions.items()}
+        out["labels"] = {k: b"".join(np.asarray(ds.variables[k][:]).reshape(-1).tolist()).decode("latin-1")
+                         for k in ("spatial", "cell_spatial") if k in ds.variables}
+        out["extra_attrs"] = {name: sorted(a for a in ds.variables[name].ncattrs() if a != "units")
+                              for name in ("coordinates", "time", "cell_lengths", "cell_angles") if name in ds.variables}
         for name in ("coordinates", "time", "cell_lengths", "cell_angles"):
             if name in ds.variables:
                 v = ds.variables[name]
@@ -204,6 +212,7 @@ def raw_trr(path):
     while not x.eof():
         magic, slen = x.i32(2)
         (n,) = x.u32()
+        version = data[x.i:x.i + n].decode("latin-1")
         x.skip((n + 3) // 4 * 4)
         ir, e, box, vir, pres, top, sym, xs, vs, fs, natoms, step, nre = x.i32(13)
         fsz = (box // 9) if box else (xs // (3 * natoms))
@@ -211,7 +220,7 @@ def raw_trr(path):
             tb, lam = x.u32(2)
             w = 32
         else:
-            tb = struct.unpack(">Q", data[x.i:x.i + 8])[0]
+            tb, lam = struct.unpack(">2Q", data[x.i:x.i + 16])
             x.skip(16)
             w = 64
 
@@ -222,7 +231,8 @@ def raw_trr(path):
             v = list(struct.unpack(">%dQ" % k, data[x.i:x.i + 8 * k]))
             x.skip(8 * k)
             return v
-        fr = {"magic": magic, "natoms": natoms, "step": step, "w": w, "time": tb, "box": arr(box)}
+        fr = {"magic": magic, "natoms": natoms, "step": step, "w": w, "time": tb, "lambda": lam, "slen": slen,
+              "version": version, "sizes": [ir, e, box, vir, pres, top, sym, xs, vs, fs], "nre": nre, "box": arr(box)}
         arr(vir)
         arr(pres)
         fr["x"] = arr(xs)
@@ -251,8 +261,15 @@ def raw_dcd(path):
     assert hdr[:4] == b"CORD"
     icntrl = struct.unpack("<20i", hdr[4:84])
     nset, has_cell, charmm = icntrl[0], icntrl[10], icntrl[19]
-    rec()  # title
-    (natoms,) = struct.unpack("<i", rec())
+    title = rec()
+    (ntitle,) = struct.unpack("<i", title[:4])
+    natom_rec = rec()
+    (natoms,) = struct.unpack("<i", natom_rec[:4])
+    header = {"hdr_len": len(hdr), "istart": icntrl[1], "nsavc": icntrl[2], "nfixed": icntrl[8],
+              "delta_bits": struct.unpack("<I", hdr[4 + 36:4 + 40])[0], "fourdims": icntrl[11], "charmm_version": charmm,
+              "ntitle": ntitle, "title_len": len(title), "natom_rec_len": len(natom_rec),
+              "nstep": icntrl[3],
+              "unused_zero": all(v == 0 for k, v in enumerate(icntrl) if k in (4, 5, 6, 7, 12, 13, 14, 15, 16, 17, 18))}
     frames = []
     while pos < len(data):
         fr = {}
@@ -261,7 +278,8 @@ def raw_dcd(path):
         xs = [list(struct.unpack("<%dI" % natoms, rec())) for _ in range(3)]
         fr["x"] = [xs[k][a] for a in range(natoms) for k in range(3)]
         frames.append(fr)
-    return {"nset_header": nset, "natoms": natoms, "has_cell": int(has_cell), "frames": frames}
+    return {"nset_header": nset, "natoms": natoms, "has_cell": int(has_cell), "frames": frames, "header": header,
+            "trailing": len(data) - pos}
 
 
 def raw_dtr(path):
@@ -415,8 +433,21 @@ def run_save(t, tj, sv, d):
     return res
 
 
+def unit_factors(pairs):
+    """the factor in_units_of multiplies with, for each (from, to): bit pattern of the Python float"""
+    from mdtraj.utils.unit import in_units_of
+    out = []
+    for a, b in pairs:
+        f = in_units_of(1.0, a, b)
+        out.append({"from": a, "to": b, "type": type(f).__name__, "bits": bits64(np.array([f]))[0]})
+    return out
+
+
 def main():
     payload = json.load(sys.stdin)
+    if payload.get("mode") == "units":
+        print(json.dumps({"factors": unit_factors(payload["pairs"])}))
+        return
     d = os.path.abspath("codec_files")
     os.makedirs(d, exist_ok=True)
     results, mem = [], []
